@@ -30,6 +30,7 @@ type Event struct {
 	Refs    bool   `json:"refsok"` // every ref created by git-bug lies in its namespaces
 	Detail  string `json:"detail"`
 	Out     string `json:"out"`
+	Interop bool   `json:"interop"` // a step of stock git (or a look at what it left): must succeed
 }
 
 type rng struct{ s uint64 }
@@ -171,6 +172,8 @@ type session struct {
 	bugs   []string
 	events []*Event
 	before map[string]bool
+	// blobs attached to operations of bugs that still exist at the end (bugs with attachments are not removed by the session)
+	attached map[string][]string // bug id -> blobs
 }
 
 func (s *session) gb(dir string, args ...string) (string, int) {
@@ -192,7 +195,8 @@ func (s *session) gb(dir string, args ...string) (string, int) {
 
 func (s *session) step(dir string, label string, f func() (string, int)) {
 	out, code := f()
-	ev := &Event{Ev: "Step", Sess: s.n, Cmd: label, Exit: code, Out: out}
+	ev := &Event{Ev: "Step", Sess: s.n, Cmd: label, Exit: code, Out: out,
+		Interop: strings.HasPrefix(label, "stock git") || strings.HasPrefix(label, "attachments") || strings.HasPrefix(label, "git-bug after gc")}
 	if len(ev.Out) > 300 {
 		ev.Out = ev.Out[:300]
 	}
@@ -230,8 +234,8 @@ func runSession(n int, seed uint64, gitbug string, steps int) []*Event {
 	prepareHost(s.a)
 	mustGit(s.root, "init", "-q", "--bare", hub)
 	mustGit(s.a, "remote", "add", "origin", hub)
-	mustGit(s.a, "push", "-q", "origin", "main", "bugs", "bugs-triage", "bugsquash", "identities-old", "feature/x")
-	mustGit(s.a, "fetch", "-q", "origin") // remote-tracking branches refs/remotes/origin/bugs-triage ... exist from the start
+	mustGit(s.a, "push", "-q", "origin", "main", "bugs-triage", "bugsquash", "identities-old", "feature/x") // not "bugs": refs/remotes/origin/bugs would be in the way of git-bug's own refs/remotes/origin/bugs/<id>
+	mustGit(s.a, "fetch", "-q", "origin")                                                                   // remote-tracking branches refs/remotes/origin/bugs-triage ... exist from the start
 	mustGit(s.root, "clone", "-q", hub, s.b)
 	mustGit(s.b, "config", "user.name", "b user")
 	mustGit(s.b, "config", "user.email", "b@example.org")
@@ -267,7 +271,9 @@ func runSession(n int, seed uint64, gitbug string, steps int) []*Event {
 			})
 		case 4:
 			id := pick()
-			s.step(s.a, "bug label new", func() (string, int) { return s.gb(s.a, "bug", "label", "new", id, fmt.Sprintf("l%d", k%3), "needs review") })
+			s.step(s.a, "bug label new", func() (string, int) {
+				return s.gb(s.a, "bug", "label", "new", id, fmt.Sprintf("l%d", k%3), "needs review")
+			})
 		case 5:
 			id := pick()
 			s.step(s.a, "bug label rm", func() (string, int) { return s.gb(s.a, "bug", "label", "rm", id, fmt.Sprintf("l%d", k%3)) })
@@ -289,10 +295,23 @@ func runSession(n int, seed uint64, gitbug string, steps int) []*Event {
 			_, _ = s.gb(s.b, "pull", "origin")
 			_, _ = s.gb(s.b, "bug", "new", "-t", fmt.Sprintf("from b %d", k), "-m", "message", "--non-interactive")
 			_, _ = s.gb(s.b, "push", "origin")
+			// the remote also got a tag and a branch this clone has not fetched: none of git-bug's business
+			mustGit(s.b, "tag", fmt.Sprintf("from-b-%d", k), "origin/main")
+			mustGit(s.b, "push", "-q", "origin", fmt.Sprintf("from-b-%d", k))
+			mustGit(s.b, "branch", fmt.Sprintf("topic-b-%d", k), "origin/main")
+			mustGit(s.b, "push", "-q", "origin", fmt.Sprintf("topic-b-%d", k))
 			s.step(s.a, "pull", func() (string, int) { return s.gb(s.a, "pull", "origin") })
 		case 11:
 			id := pick()
-			s.step(s.a, "bug rm", func() (string, int) { return s.gb(s.a, "bug", "rm", id) })
+			s.step(s.a, "bug rm", func() (string, int) {
+				o, c := s.gb(s.a, "bug", "rm", id)
+				for bid := range s.attached {
+					if _, rc := git(s.a, "show-ref", "--verify", "--quiet", "refs/bugs/"+bid); rc != 0 {
+						delete(s.attached, bid) // the bug is gone (whatever the command reported): its attachments may go with it
+					}
+				}
+				return o, c
+			})
 		case 12:
 			id := pick()
 			s.step(s.a, "bug select+show", func() (string, int) {
@@ -323,6 +342,7 @@ func runSession(n int, seed uint64, gitbug string, steps int) []*Event {
 				if err != nil {
 					return err.Error(), 1
 				}
+				att := []string{string(h1)}
 				b, _, err := c.Bugs().NewWithFiles(fmt.Sprintf("with files %d", k), "see attachment", []repository.Hash{h1})
 				if err != nil {
 					return err.Error(), 1
@@ -335,6 +355,7 @@ func runSession(n int, seed uint64, gitbug string, steps int) []*Event {
 						return err.Error(), 1
 					}
 					hs = append(hs, h)
+					att = append(att, string(h))
 				}
 				_, _, err = b.AddCommentWithFiles("another", []repository.Hash{hs[0]})
 				if err == nil {
@@ -349,6 +370,20 @@ func runSession(n int, seed uint64, gitbug string, steps int) []*Event {
 				if err != nil {
 					return err.Error(), 1
 				}
+				if s.attached == nil {
+					s.attached = map[string][]string{}
+				}
+				s.attached[b.Id().String()] = att
+				// and a bug whose only commit carries exactly one file
+				lone, err := c.StoreData([]byte(fmt.Sprintf("lone attachment %d", k)))
+				if err != nil {
+					return err.Error(), 1
+				}
+				b2, _, err := c.Bugs().NewWithFiles(fmt.Sprintf("one file %d", k), "see the attachment", []repository.Hash{lone})
+				if err != nil {
+					return err.Error(), 1
+				}
+				s.attached[b2.Id().String()] = []string{string(lone)}
 				return "ok", 0
 			})
 		case 15:
@@ -366,12 +401,33 @@ func runSession(n int, seed uint64, gitbug string, steps int) []*Event {
 	})
 	s.step(s.a, "stock git: gc --prune=now", func() (string, int) { return git(s.a, "gc", "-q", "--prune=now") })
 	s.step(s.a, "git-bug after gc: bug listing", func() (string, int) { return s.gb(s.a, "bug") })
+	// attachments are reachable from the bug refs: a pruning gc keeps them
+	s.step(s.a, "attachments after gc", func() (string, int) {
+		for _, hs := range s.attached {
+			for _, h := range hs {
+				if o, c := git(s.a, "cat-file", "-e", h); c != 0 {
+					return "attached file " + h + " is gone after git gc --prune=now: " + o, 1
+				}
+			}
+		}
+		return "ok", 0
+	})
 	s.step(s.a, "stock git: mirror clone + fsck", func() (string, int) {
 		m := filepath.Join(s.root, "mirror.git")
 		if o, c := git(s.root, "clone", "-q", "--mirror", hub, m); c != 0 {
 			return o, c
 		}
-		return git(m, "fsck", "--strict", "--no-dangling")
+		if o, c := git(m, "fsck", "--strict", "--no-dangling"); c != 0 {
+			return o, c
+		}
+		for _, hs := range s.attached {
+			for _, h := range hs {
+				if o, c := git(m, "cat-file", "-e", h); c != 0 {
+					return "attached file " + h + " did not travel with a stock git push and clone: " + o, 1
+				}
+			}
+		}
+		return "ok", 0
 	})
 	if n%3 == 0 {
 		// everything git-bug ever wrote goes away, nothing else does
